@@ -267,65 +267,116 @@ def qshift (r : Ring) (len : Nat) (dst : Bool) : Res (Ring × List Byte) :=
   | .err e => .err e
   | .null => .null | .oob => .oob | .fault => .fault
 
-/-- `mpt_memrev(data+at, pre, len)` as a whole: rotate `[at, at+len)` left by `pre`.
-    The 1024-byte block strategy of the C code is modelled separately (`memrevBlocks`). -/
+/-- `mpt_memswap(from, to, len)` for disjoint areas: exchange `[a,a+len)` and `[b,b+len)`.
+    (The C code goes through a 1024-byte buffer block by block; for disjoint areas that is this exchange.) -/
+def memswap (s : List Byte) (a b len : Nat) : Res (List Byte) :=
+  match Mem.rd s a len, Mem.rd s b len with
+  | .ok x, .ok y =>
+    match Mem.wr s a y with
+    | .ok s1 => Mem.wr s1 b x
+    | _ => .oob
+  | _, _ => .oob
+
+/-- rotate `[pos, pos+pre+post)` left by `pre` through a temporary buffer (the `pre <= 1024` /
+    `post <= 1024` exits of `mpt_memrev`) -/
+def rotateTmp (s : List Byte) (pos pre post : Nat) : Res (List Byte) :=
+  match Mem.rd s pos pre, Mem.rd s (pos + pre) post with
+  | .ok x, .ok y => Mem.wr s pos (y ++ x)
+  | _, _ => .oob
+
+/-- the loop of `mpt_memrev`: exchange the part before the pivot with the part after it, using block
+    swaps until one side fits the 1024-byte temporary -/
+def memrevLoop (s : List Byte) (data pre post : Nat) : Res (List Byte) :=
+  if pre = 0 ∨ post = 0 then .ok s
+  else if pre ≤ 1024 then rotateTmp s data pre post
+  else if post ≤ 1024 then rotateTmp s data pre post
+  else if pre < post then
+    match memswap s data (data + pre) pre with
+    | .ok s1 => memrevLoop s1 (data + pre) pre (post - pre)
+    | _ => .oob
+  else
+    match memswap s (data + (pre - post)) (data + pre) post with
+    | .ok s1 => memrevLoop s1 data (pre - post) post
+    | _ => .oob
+termination_by pre + post
+decreasing_by all_goals omega
+
+/-- `mpt_memrev(base+pos, pre, len)`; `len < pre` is BadArgument (ignored by all callers) -/
 def memrev (store : List Byte) (pos pre len : Nat) : Res (List Byte) :=
-  if len < pre then .ok store      -- BadArgument, ignored by all callers
-  else if pre = 0 ∨ len - pre = 0 then .ok store
-  else do
-    let a ← Mem.rd store pos pre
-    let b ← Mem.rd store (pos + pre) (len - pre)
-    Mem.wr store pos (b ++ a)
+  if len < pre then .ok store
+  else memrevLoop store pos pre (len - pre)
+
+/-- `mpt_queue_align`, first half: fragmented data is made contiguous at the storage start -/
+def alignFlat (r : Ring) : Res Ring :=
+  let pv := r.max - r.len
+  let moved : Res (List Byte × Nat) :=
+    if pv ≠ 0 then
+      match Mem.mv r.store (r.off - pv) r.off (r.max - r.off) with
+      | .ok s => .ok (s, r.off - pv)
+      | _ => .oob
+    else .ok (r.store, r.off)
+  match moved with
+  | .ok (s1, off1) =>
+    match memrev s1 0 off1 r.len with
+    | .ok s2 => .ok { r with store := s2, off := 0 }
+    | _ => .oob
+  | _ => .oob
+
+/-- `mpt_queue_align`, second half: contiguous data at `off` is moved to offset `pos` -/
+def alignMove (r : Ring) (pos : Nat) : Res Ring :=
+  if r.max - r.len ≥ pos then
+    match Mem.mv r.store pos r.off r.len with
+    | .ok s => .ok { r with store := s, off := pos }
+    | _ => .oob
+  else
+    -- the target wraps: the first `pv` bytes end up at [pos,max), the rest at the storage start
+    let pv := r.max - pos
+    match memrev r.store r.off pv r.len with
+    | .ok s1 =>
+      let up : Res (List Byte) :=
+        if pv ≠ 0 ∧ pos ≠ r.off + r.len - pv then Mem.mv s1 pos (r.off + r.len - pv) pv else .ok s1
+      match up with
+      | .ok s2 =>
+        let lo : Res (List Byte) := if r.off ≠ 0 then Mem.mv s2 0 r.off (r.len - pv) else .ok s2
+        match lo with
+        | .ok s3 => .ok { r with store := s3, off := pos }
+        | _ => .oob
+      | _ => .oob
+    | _ => .oob
 
 /-- `mpt_queue_align(queue, pos)` -/
 def align (r : Ring) (pos : Nat) : Res Ring :=
   if pos > r.max then .ok r
   else if r.len = 0 then .ok { r with off := 0 }
-  else do
-    -- make data contiguous at offset 0 when fragmented
-    let r1 ←
-      if r.frag then do
-        let pv := r.max - r.len
-        let (s1, off1) ←
-          if pv ≠ 0 then do
-            let s ← Mem.mv r.store (r.off - pv) r.off (r.max - r.off)
-            pure (s, r.off - pv)
-          else (pure (r.store, r.off) : Res _)
-        let s2 ← memrev s1 0 off1 r.len
-        pure { r with store := s2, off := 0 }
-      else (pure r : Res _)
-    if pos = r1.off then pure r1
-    else
-      let pv := r1.max - r1.len
-      if pv ≥ pos then do
-        let s ← Mem.mv r1.store pos r1.off r1.len
-        pure { r1 with store := s, off := pos }
-      else do
-        -- target wraps: first `max - pos` bytes go to [pos,max), the rest to [0, ..)
-        let head := r1.max - pos
-        let a ← Mem.rd r1.store r1.off head
-        let b ← Mem.rd r1.store (r1.off + head) (r1.len - head)
-        let s1 ← Mem.wr r1.store 0 b
-        let s2 ← Mem.wr s1 pos a
-        pure { r1 with store := s2, off := pos }
+  else if r.frag then
+    match r.alignFlat with
+    | .ok r1 => if pos = 0 then .ok r1 else r1.alignMove pos
+    | x => x
+  else if pos = r.off then .ok r
+  else r.alignMove pos
+
+/-- `mpt_queue_resize`, shrinking: data that no longer fits is removed from the queue start -/
+def dropFront (r : Ring) (n : Nat) : Ring :=
+  if n < r.len then
+    match r.crop 0 (r.len - n) with
+    | .ok (t, _) => t
+    | _ => r
+  else r
 
 /-- `mpt_queue_resize(queue, len)`: realloc keeps the first `min old new` bytes; new bytes are
     zero in the model (the driver clears them). `allocOk = false` models realloc failure. -/
 def resize (r : Ring) (n : Nat) (allocOk : Bool := true) : Res Ring :=
   if n = 0 then .ok { store := [], len := 0, off := 0 }
-  else if n < r.max then do
-    let r1 ← if n < r.len then
-        match r.crop 0 (r.len - n) with
-        | .ok (t, _) => pure t
-        | _ => (pure r : Res _)
-      else pure r
-    let r2 ← r1.align 0
-    if !allocOk then .null
-    else pure { r2 with store := r2.store.take n }
-  else if n > r.max then do
-    let r1 ← if r.frag then r.align 0 else pure r
-    if !allocOk then .null
-    else pure { r1 with store := r1.store ++ List.replicate (n - r1.max) 0 }
+  else if n < r.max then
+    -- remove data from queue start
+    match (r.dropFront n).align 0 with
+    | .ok r2 => if !allocOk then .null else .ok { r2 with store := r2.store.take n }
+    | x => x
+  else if n > r.max then
+    let r1 : Res Ring := if r.frag then r.align 0 else .ok r
+    match r1 with
+    | .ok r2 => if !allocOk then .null else .ok { r2 with store := r2.store ++ List.replicate (n - r2.max) 0 }
+    | x => x
   else .ok r
 
 /-- `MPT_align(x)` of core.h on LP64: round up to a multiple of `sizeof(void*)` -/
@@ -368,11 +419,18 @@ def find (r : Ring) (needle : List Byte) : Res (Option Nat) :=
 def string (r : Ring) : Res (Ring × List Byte) :=
   let rem := r.max - r.len
   if rem = 0 then .null
-  else do
-    let r1 ← if rem ≤ r.off then r.align 0 else pure r
-    let s ← Mem.wr r1.store (r1.off + r1.len) [0]
-    let out ← Mem.rd s r1.off r1.len
-    pure ({ r1 with store := s }, out)
+  else
+    let r1 : Res Ring := if rem ≤ r.off then r.align 0 else .ok r
+    match r1 with
+    | .ok r1 =>
+      match Mem.wr r1.store (r1.off + r1.len) [0] with
+      | .ok s =>
+        match Mem.rd s r1.off r1.len with
+        | .ok out => .ok ({ r1 with store := s }, out)
+        | _ => .oob
+      | _ => .oob
+    | .err e => .err e
+    | .null => .null | .oob => .oob | .fault => .fault
 
 /-- logical content as the C struct denotes it: `base[(off+i) % max]`, `i < len` -/
 def content (r : Ring) : List Byte :=
